@@ -32,6 +32,15 @@ pub async fn run(args: &Args, rep: &mut Reporter) {
     let cases = args.by_tier(1usize, 10usize);
     let mut rng = Rng::new(args.shard_seed() ^ 0xC03);
     crate::loopback::KEEP_WIRE_DEFAULT.store(true, Ordering::Relaxed);
+    // the application's own file logger at its default level (the log file is in scope of C03)
+    let app_logs = args.dir.join("app-logs");
+    let _ = std::fs::create_dir_all(&app_logs);
+    std::env::remove_var("RUST_LOG");
+    if let Err(e) = sos_logs::Logger::new_dir(app_logs.clone(), sos_logs::LOG_FILE_NAME.to_string()).init_file_subscriber(None) {
+        rep.inconclusive(&format!("cannot install the application logger: {e}"));
+        return;
+    }
+    let mut app_log_offset: u64 = 0;
     for c in 0..cases {
         let backend = if (c + args.shard) % 2 == 0 { Backend::Fs } else { Backend::Db };
         let config = Config { backend, cipher: Default::default(), kdf: Default::default() };
@@ -96,6 +105,91 @@ pub async fn run(args: &Args, rep: &mut Reporter) {
             let _ = w.sync(0).await;
             let _ = w.sync(1).await;
         }
+        // ---- conflicting offline edits on both devices, then merges (every merge branch:
+        // update/update, delete then later update, create/create, rename, description) -------
+        let mut extra_markers = vec![];
+        for round in 0..args.by_tier(3usize, 8usize) {
+            let view = {
+                let mut a = w.devices[0].account.lock().await;
+                snapshot::live(&mut a).await.ok().map(|v| v.0)
+            };
+            let Some(view) = view else { break };
+            let mut targets: Vec<(sos_core::VaultId, sos_core::SecretId)> = vec![];
+            let mut fsorted: Vec<_> = view.folders.iter().collect();
+            fsorted.sort_by(|a, b| a.1.name.cmp(&b.1.name));
+            for (f, fv) in fsorted {
+                if fv.flags & 0xff != 0 {
+                    continue;
+                }
+                let mut ids: Vec<_> = fv.secrets.keys().copied().collect();
+                ids.sort();
+                for id in ids.into_iter().take(3) {
+                    targets.push((*f, id));
+                }
+            }
+            if targets.len() < 3 {
+                break;
+            }
+            let pick = |i: usize| targets[(round * 3 + i) % targets.len()];
+            let opts = |f: &sos_core::VaultId| sos_client_storage::AccessOptions { folder: Some(*f), ..Default::default() };
+            // device 0 (earlier clock): delete t0, update t1, describe folder
+            {
+                w.clock_in(0);
+                let mut a = w.devices[0].account.lock().await;
+                let mut g = vmodel::secgen::Gen::new(&mut rng);
+                g.allow_large = false;
+                let (f0, s0) = pick(0);
+                let (f1, s1) = pick(1);
+                let _ = a.delete_secret(&s0, opts(&f0)).await;
+                let (m, sec) = g.secret_of_kind(0, 0);
+                let _ = a.update_secret(&s1, m, Some(sec), opts(&f1)).await;
+                let (m, sec) = g.secret_of_kind(round % KINDS.len(), 0);
+                if KINDS[round % KINDS.len()] != "file" {
+                    let _ = a.create_secret(m, sec, opts(&f0)).await;
+                }
+                let d = g.text("folder.description");
+                let _ = a.set_folder_description(&f1, d).await;
+                extra_markers.extend(g.markers);
+                drop(a);
+                w.clock_out(0);
+            }
+            // device 1 (later clock): update t0 (deleted on device 0), update t1, create, update t2
+            {
+                if w.devices[1].now_ns <= w.devices[0].now_ns {
+                    w.devices[1].now_ns = w.devices[0].now_ns + 5 * MS;
+                }
+                w.clock_in(1);
+                let mut a = w.devices[1].account.lock().await;
+                let mut g = vmodel::secgen::Gen::new(&mut rng);
+                g.allow_large = false;
+                let (f0, s0) = pick(0);
+                let (f1, s1) = pick(1);
+                let (f2, s2) = pick(2);
+                let (m, sec) = g.secret_of_kind(0, 0);
+                let _ = a.update_secret(&s0, m, Some(sec), opts(&f0)).await;
+                let (m, sec) = g.secret_of_kind(1, 0);
+                let _ = a.update_secret(&s1, m, Some(sec), opts(&f1)).await;
+                let (m, sec) = g.secret_of_kind(2, 0);
+                let _ = a.update_secret(&s2, m, Some(sec), opts(&f2)).await;
+                let (m, sec) = g.secret_of_kind((round + 5) % KINDS.len(), 0);
+                if KINDS[(round + 5) % KINDS.len()] != "file" {
+                    let _ = a.create_secret(m, sec, opts(&f2)).await;
+                }
+                extra_markers.extend(g.markers);
+                drop(a);
+                w.clock_out(1);
+            }
+            rep.count("conflict_rounds", 1);
+            for _ in 0..3 {
+                for d in if round % 2 == 0 { [0usize, 1] } else { [1usize, 0] } {
+                    match w.sync(d).await {
+                        SyncResult::Ok(_) => rep.count("conflict_syncs_ok", 1),
+                        _ => rep.count("conflict_syncs_not_ok", 1),
+                    }
+                }
+            }
+        }
+        driver.markers.extend(extra_markers);
         // ---- real secrets of the account -----------------------------------------------------
         let mut tokens: Vec<(String, Vec<u8>)> = vec![];
         for m in &driver.markers {
@@ -164,6 +258,23 @@ pub async fn run(args: &Args, rep: &mut Reporter) {
                 let kind = if rel.ends_with(".vault") { "vault_file" } else if rel.ends_with(".events") { "event_log" } else if rel.contains(".db") || rel.contains("sqlite") { "sqlite" } else if rel.contains("audit") { "audit_log" } else { "other_file" };
                 report(rep, &tokens[h.marker].0, &format!("{wherein}:{kind}"), &file, h.form, h.offset);
             }
+        }
+        // ---- the application log written during this case -----------------------------------------
+        {
+            let mut n = 0u64;
+            if let Ok(rd) = std::fs::read_dir(&app_logs) {
+                for e in rd.flatten() {
+                    if let Ok(data) = std::fs::read(e.path()) {
+                        let from = (app_log_offset as usize).min(data.len());
+                        n += (data.len() - from) as u64;
+                        for h in scanner.scan(&data[from..]) {
+                            report(rep, &tokens[h.marker].0, "app_log", &e.path().display().to_string(), h.form, h.offset + from);
+                        }
+                        app_log_offset = data.len() as u64;
+                    }
+                }
+            }
+            rep.count("app_log_bytes_scanned", n);
         }
         // ---- wire buffers ---------------------------------------------------------------------------
         {
